@@ -1,7 +1,7 @@
 _C44_NOTE = ("The race detector is happens-before based: it reports an unsynchronised pair whenever both accesses execute "
              "in one run, whatever the timing, so what is generated is which operations run concurrently on which object. "
              "A quiet run says nothing about operation pairs or object states that were not generated.")
-WIP["C44"] = dict(
+CHECKS["C44"] = dict(
     level="exploration", engine="E5",
     technique="generated concurrent programs (k goroutines x short operation lists over one shared object, drawn with rapid) executed under the Go race detector with a watchdog; operations are the calls miner/sharder workers and handlers make (roots documented per operation); differential cross-check of ValidateTransactions' verdict",
     level_text="Five parts, each its own -race test binary run with GORACE=halt_on_error: (a) one round.Round (notarized/proposed block lists, VRF shares, seeds and ranks, phase, finalizing state, timeouts, restart, clone), (b) one published block.Block (ticket add/merge/read, notarization flag, previous-block link, state status / block state / verification status, client state, unique extensions, msgpack encoding, clone), (c) miner ValidateTransactions over generated blocks with >= 2 batches, invalid transactions of five kinds at drawn positions, the current round moving on meanwhile, 1..3 blocks validated concurrently, (d) one chain.Chain: block map (AddBlock / AddRoundBlock / AddNotarizedBlockToRound / GetBlock(Clone) / SetBlock / delete dead blocks / PruneChain), round map (AddRound / GetRound / GetRoundClone / DeleteRoundsBelow), current round, latest deterministic block, (e) one miner.Round (verification channel, collected tickets, own share/ticket, cancel functions, restart). Programs: node type (miner or sharder, which selects the admissible operations), 0..4 sequential set-up operations, 2..4 goroutines x 1..6 operations, repeated on fresh objects; block objects are private to a goroutine until published through the chain or round, as in the real code. " + _C44_NOTE,
